@@ -68,7 +68,10 @@ def load_mir(overflow='on'):
     pk = os.path.join(CACHE, f'mirp_{overflow}_{th}_{pver}.pkl')
     if os.path.exists(pk):
         try:
-            with open(pk, 'rb') as f: return pickle.load(f), th
+            with open(pk, 'rb') as f: mir = pickle.load(f)
+            mcore.index_of(mir[0])          # lookup tables built once, in the parent, before workers fork
+            import gc; gc.collect(); gc.freeze()          # the dump is millions of objects: keep the collector (and with it copy-on-write) off them in forked workers
+            return mir, th
         except Exception: pass
     fns = parse_mir(open(path).read())
     enums = parse_enums([(os.path.basename(p)[:-3], open(p).read()) for p in sorted(glob.glob(os.path.join(REPO, 'src', '*.rs')))])
@@ -76,6 +79,8 @@ def load_mir(overflow='on'):
         tmp = pk + f'.tmp{os.getpid()}'
         with open(tmp, 'wb') as f: pickle.dump((fns, enums), f, protocol=pickle.HIGHEST_PROTOCOL)
         os.replace(tmp, pk)
+    mcore.index_of(fns)
+    import gc; gc.collect(); gc.freeze()
     return (fns, enums), th
 
 # ------------------------------------------------------------------------------------------------ nlrun (native replay)
@@ -291,9 +296,18 @@ def pmap(fn, items, tier, jobs=None):
     if jobs <= 1 or len(items) <= 1 or os.environ.get('VERIF_SERIAL'):
         res = [_worker((i, it)) for i, it in enumerate(items)]
     else:
-        ctx = multiprocessing.get_context('fork')
-        with ctx.Pool(min(jobs, len(items))) as pool:
-            res = pool.map(_worker, list(enumerate(items)), chunksize=1)
+        # shapes that run the whole evaluator ('program', 'pair') touch most of the MIR dump: in forked workers that means copy-on-write
+        # faults on pages shared with 15 siblings, which serialise in the kernel (measured: 160 s in the pool, 40 s in one process);
+        # they run in the parent after the pool is done
+        par = [(i, it) for i, it in enumerate(items) if not (isinstance(it, tuple) and it and it[0] in ('program', 'pair'))]
+        ser = [(i, it) for i, it in enumerate(items) if isinstance(it, tuple) and it and it[0] in ('program', 'pair')]
+        res = []
+        if len(par) > 1:
+            ctx = multiprocessing.get_context('fork')
+            with ctx.Pool(min(jobs, len(par))) as pool:
+                res = pool.map(_worker, par, chunksize=1)
+        else: res = [_worker(x) for x in par]
+        res += [_worker(x) for x in ser]
     if os.environ.get('VERIF_PROFILE'):
         for d in sorted(res, key=lambda d: -d['wall'])[:12]: log(f"  [profile] {d['wall']:.1f}s paths={d['paths']} obl={d['n']} solver={d['solver_time']:.1f}s {d['item']}")
     return merge(res), res
